@@ -182,6 +182,17 @@ func findInlineNode(file *ast.File, comment *ast.Comment, fset *token.FileSet) (
 		return file.Decls[i].End() > commentPos
 	})
 
+	// A comment that trails the last line of the preceding declaration
+	// (e.g. `var x = T{} // @ignore CODE`) is inline for that line
+	if idx > 0 && (idx >= len(file.Decls) || commentPos < file.Decls[idx].Pos()) {
+		prev := file.Decls[idx-1]
+		if fset.Position(prev.End()).Line == commentLine {
+			if fileContent := fset.File(commentPos); fileContent != nil {
+				return fileContent.LineStart(commentLine), comment.End(), true
+			}
+		}
+	}
+
 	// If no declaration found, not inline
 	if idx >= len(file.Decls) {
 		return 0, 0, false
